@@ -153,6 +153,6 @@ theorem deref2_eq (d0 d1 : Bytes) (pos : Nat) : deref2 d0 d1 pos = deref (d0 ++ 
     simp only [h, if_false, List.getD_eq_getElem?_getD, List.getElem?_append_right h']
     by_cases h2 : pos - d0.length < d1.length
     · simp [h2]
-    · simp [h2, List.getElem?_eq_none (Nat.le_of_not_lt h2)]
+    · simp [h2]
 
 end Rtosc.Ring
